@@ -120,6 +120,8 @@ def dp(P, C, variant=None):
         def transfer(st, e, b, j):
             if e.get("kind") != "stmt":
                 return st
+            if f.k(e["n"]) == "CXXThrowExpr":
+                return frozenset({"eval_ptr", "v_eval_ptr"})     # a path that throws (refusal of an empty table) does not reach the return
             for a in asg:
                 if a["node"] == e["n"]:
                     return st | {a["ptr"]}
